@@ -5,6 +5,7 @@ import (
 	"go/constant"
 	"go/token"
 	"math/big"
+	"sort"
 	"strings"
 
 	"golang.org/x/tools/go/ssa"
@@ -145,15 +146,40 @@ func ravgConst(v ssa.Value) (*big.Rat, bool) {
 func checkRollingAvgEncoder(c *Ctx, r *Report) {
 	r.Rule("period-encoder-arms", "on every path of the rolling-average period encoder: the unit tag is the unit the count divides by (1 s, 60 s, 3600 s, 86400 s), the count is one truncation of duration/unit, the path's durations lie in [unit, 60·unit) ([0, 60 s) for seconds, [1 day, ∞) for days), and the count is kept ≤ 63 by that interval or by a clamp at 63", 4)
 	var enc *ssa.Function
-	if p := c.Pkg("pkg/dcmi"); p != nil {
-		for _, m := range p.Members {
-			f, ok := m.(*ssa.Function)
+	encIn := func(rel string) (found *ssa.Function, n int) {
+		p := c.Pkg(rel)
+		if p == nil {
+			return nil, 0
+		}
+		var names []string
+		for nm := range p.Members {
+			names = append(names, nm)
+		}
+		sort.Strings(names)
+		for _, nm := range names {
+			f, ok := p.Members[nm].(*ssa.Function)
 			if !ok || f.Blocks == nil || f.Signature.Recv() != nil || len(f.Params) != 1 || f.Signature.Results().Len() != 1 {
 				continue
 			}
 			if f.Params[0].Type().String() == "time.Duration" && typeBits(f.Signature.Results().At(0).Type().Underlying()) == 8 && isIntType(f.Signature.Results().At(0).Type().Underlying()) {
-				enc = f
+				found = f
+				n++
 			}
+		}
+		return found, n
+	}
+	if f, n := encIn("pkg/dcmi"); n > 0 {
+		enc = f
+	} else {
+		// moved to another library package of the module
+		total := 0
+		for _, rel := range c.libPkgRels() {
+			if f, n := encIn(rel); n > 0 {
+				enc, total = f, total+n
+			}
+		}
+		if total != 1 {
+			enc = nil
 		}
 	}
 	if enc == nil {
